@@ -30,7 +30,7 @@ ASSUMPTIONS = [
     "confirmations are emitted only for accepted enqueues (as firmware does), except the explicitly unsolicited ones; every request of a run has its own destination, except in the `samedest` series where they share one",
     "command payload schemas inside the NCP model are bellows' own tables; messageSentHandler frames are built with them in the version's field order",
 ]
-PROBES = ["kind.plain", "kind.route", "kind.exttimeout", "kind.ieee", "kind.multicast", "kind.broadcast", "enqueue.busy_then_ok", "enqueue.busy_x3", "enqueue.refused",
+PROBES = ["message_tag_zero", "kind.plain", "kind.route", "kind.exttimeout", "kind.ieee", "kind.multicast", "kind.broadcast", "enqueue.busy_then_ok", "enqueue.busy_x3", "enqueue.refused",
           "confirm.success", "confirm.failure", "confirm.never", "confirm.duplicate", "confirm.wrong_tag", "confirm.wrong_dest", "confirm.unsolicited",
           "confirm.before_response", "confirm.stale_repeat", "series_same_tsn", "series_distinct_tsn", "cancelled", "overlapping_requests", "timeout_120s", "setup_commands_seen"]
 
@@ -468,6 +468,10 @@ def run(scenario, params, tape, detail=False):
         if scenario == "single":
             i = 0
             for conf in params["confs"]:
+                if conf in ("failure", "never", "success") and params["kind"] == "plain":
+                    # ... for the request that draws message tag 0 (zigpy's 8-bit sequence has just wrapped: the 256th send of the application's life)
+                    app._send_sequence = 255
+                    probe("message_tag_zero")
                 r = new_request(app, i, params["kind"], ENQ_SCRIPTS[params["enq"]], conf, 0.05)
                 t = loop.create_task(call(app, r))
                 await asyncio.sleep(130.0)
